@@ -92,7 +92,7 @@ def bad_ctor_case(rng, cls):
 
 
 def q(x):
-    return g_Q(Fraction(x))
+    return vlib.g_Qf(x)
 
 
 def res_lit(r, warn=False):
